@@ -4,6 +4,10 @@ from vlib import *
 import progcheck as PC
 
 SHAPES = [
+    # struct patterns / literals with several refutable fields (compile.rs builds HashMaps of the fields)
+    "struct S { a: u8, b: u8, c: bool, d: i8, e: u16 } pub fn main(s: S, x: u8) -> u8 { match s { S { a: 1u8, b: 2u8, c: true, d: 0i8, e: 7u16 } => x, S { a: 0u8..10u8, b: 3u8, c: false, .. } => 1u8, S { e: 9u16, d: 1i8..5i8, b: 0u8, .. } => 2u8, _ => 3u8 } }",
+    "struct P { x: u8, y: u8, z: u8, w: u8 } pub fn main(p: P) -> u8 { let P { x, y, z, w } = p; let q: P = P { w: x + 1u8, z: y + 2u8, y: z + 3u8, x: w + 4u8 }; match q { P { x: 4u8, y: 3u8, z: 2u8, w: 1u8 } => 0u8, P { x: 0u8, y: 0u8, .. } => 1u8, _ => q.x + q.w } }",
+    "enum E { A(u8, u8), B(u8), C } struct T { e: E, f: E, g: bool } pub fn main(t: T) -> u8 { match t { T { e: E::A(1u8, x), f: E::B(2u8), g: true } => x, T { e: E::C, f: E::A(a, 3u8), g: false } => a, T { g: true, e: E::B(b), .. } => b, _ => 0u8 } }",
     "pub fn main(a: u8, b: u8, c: u8, d: u8, e: bool, f: bool) -> u8 { let r: u8 = if e { (a+b)+(c*d)+(a-d) } else { (a-d)+(c*d)+(a+b) }; let s: u8 = if f { a+b } else { c*d }; r ^ s }",
     "pub fn main(a: u8, b: u8, c: u8, e: bool) -> u8 { let r: u8 = match e { true => (a+b)-(c/b), false => (c/b)*(a+b) }; let s: u8 = if e { c/b } else { a+b }; r | s }",
     "pub fn main(a: i8, b: i8, e: bool, f: bool) -> i8 { let mut r: i8 = 0i8; if e { r = a * b; r = r + a; } else { r = a + a; r = r * b; } if f { r = r - (a * b); } r }",
